@@ -16,7 +16,7 @@ RULE = ("certified conforming tetrahedral meshes with closed manifold boundary f
         "of (S)-positive cells for the orientation clause); per mesh several fresh objects driven through the accessor script in different orders; "
         "non-trivial = at least 6 cells with an interior face and an interior edge; distinct = distinct (vertex count, cell list) hash")
 REQUIRED = {"vconn": 3000, "order/batches": 300, "order_equal": 30, "boundary/enable": 20, "boundary/standalone": 20, "maps": 100}
-CASE_TIMEOUT = {"quick": 60.0, "thorough": 600.0}
+CASE_TIMEOUT = {"quick": 30.0, "thorough": 600.0}
 ASSUMPTIONS = ["inputs are conforming tetrahedral meshes whose boundary is a closed manifold surface, without unused vertices",
                "'positively oriented' is read as the library's own signed-volume expression det(p0-p3,p1-p3,p2-p3) > 0 (DESIGN C03)",
                "rings around an edge are compared up to rotation/reflection"]
